@@ -51,6 +51,20 @@ def gen(rng, n):
         v = v * rng.choice([-1.0, 1.0], size=n + 1) if rng.random() < 0.5 else v
         v = v / np.abs(v).sum() * float(rng.uniform(0.3, 0.9))
         eps = float(10 ** rng.uniform(-5, -4))
+    if n >= 2 and rng.random() < 0.12:
+        # exact zeros in a regular pattern (every other entry, or everything but the ends / the centre): legal compact vectors
+        # that LOOK like another layout (a full-range vector with its parity zeros written out)
+        pat = str(rng.choice(["odd-index-zero", "only-ends", "only-even-index-ends"]))
+        klass += "/zeros:" + pat
+        if pat == "odd-index-zero":
+            v[1::2] = 0.0
+        elif pat == "only-ends":
+            v[1:-1] = 0.0
+        else:
+            v[1::2] = 0.0
+            v[2:-2] = 0.0 if n >= 4 else v[2:-2]
+        if np.abs(v).sum() > 0:
+            v = v / np.abs(v).sum() * norm
     suc = float(1 - 10 ** rng.uniform(-5, -2))
     if rng.random() < 0.12:
         eps, suc = 1e-4, 1 - 1e-4                          # the library defaults (the call then leaves them out)
